@@ -9,6 +9,7 @@
 #include <cds/container/feldman_hashset_hp.h>
 #include <cds/container/feldman_hashset_dhp.h>
 #include <map>
+#include <cds/container/feldman_hashset_rcu.h>
 #include "setmap_common.h"
 
 using namespace smc;
@@ -45,12 +46,19 @@ template <class S> struct HashOps {
     static std::pair<bool, bool> upsert(S& s, long k, long i, long& old) { return s.update(FItem(k, i), [&old](FItem&, FItem* o) { if (o) old = o->inst; }, true); }
 };
 template <class GC, class S, class Ops, int Mode /*0 ordered exactly-once, 1 exactly-once, 2 at-least-once*/, bool Reverse> struct ItA {
-    typedef typename SmrOf<GC>::type Smr; typedef S set_type; typedef Ops ops; static const int mode = Mode; static const bool has_reverse = Reverse;
+    typedef typename SmrOf<GC>::type Smr; typedef S set_type; typedef Ops ops; typedef GC gc_type; static const int mode = Mode; static const bool has_reverse = Reverse;
     std::unique_ptr<S> s;
     explicit ItA(const Program& p) { make(p, 0); }
     template <class X = S> auto make(const Program& p, int) -> decltype((void)new X((size_t)1, (size_t)1)) { s.reset(new S((size_t)p.knob("arg1", 2), (size_t)p.knob("arg2", 1))); }
     void make(const Program&, long) { s.reset(new S()); }
 };
+// RCU containers: iterators are valid only inside an RCU critical section held for the whole walk
+template <class S, class GC> struct WalkLock { WalkLock() {} };
+template <class S, class R> struct WalkLock<S, cds::urcu::gc<R>> { typename S::rcu_lock l; };
+template <class S, class It> auto erase_at_of(S& s, It& it, int) -> decltype((bool)s.erase_at(it)) { return s.erase_at(it); }
+template <class S, class It> bool erase_at_of(S&, It&, long) { return false; }
+template <class S, class It> auto has_erase_at_of(S& s, It& it, int) -> decltype((void)s.erase_at(it), true) { return true; }
+template <class S, class It> bool has_erase_at_of(S&, It&, long) { return false; }
 template <class A, bool R> struct RevWalk { template <class F, class P, class Q> static void go(typename A::set_type&, long, F, P, Q) {} };
 template <class A> struct RevWalk<A, true> { template <class F, class P, class Q> static void go(typename A::set_type& s, long hold, F visit, P pre, Q post) { for (auto it = (pre(), s.rbegin()); (post(), it != s.rend()); (pre(), ++it)) { visit(it->key, it->inst); for (long k = 0; k < hold; k++) dsim::point(dsim::K_USER); visit(it->key, it->inst); } } };
 
@@ -80,6 +88,7 @@ template <class A> void run(Ctx& ctx) {
                 [&](int t, const Op& op) {
                     int h = ctx.begin_op(t, op); long inst = 1000 + op.id; long r = 0, r2 = -1, r3 = 0;
                     if (op.kind == O_ITER) {
+                        WalkLock<typename A::set_type, typename A::gc_type> walk_lock;
                         ++dsim::t_bypass; walks.emplace_back(); --dsim::t_bypass; size_t w = walks.size() - 1; long nerased = 0; uint64_t mv0 = 0;
                         auto note_move = [&](int th, uint64_t from) { ++dsim::t_bypass; moves.push_back(Ival{from, dsim::now_step(), th}); --dsim::t_bypass; };
                         auto visit = [&](long key, long ins) {
@@ -97,8 +106,8 @@ template <class A> void run(Ctx& ctx) {
                             long key = it->key, ins = it->inst; visit(key, ins);
                             for (long k = 0; k < op.b; k++) dsim::point(dsim::K_USER);
                             visit(it->key, it->inst);   // still the same, live element after the hold
-                            if (op.c && key % STABLE_STEP != 0 && (op.c == 2 || (key + (long)walks[w].size()) % 3 == 0)) {
-                                bool ok = s.erase_at(it);
+                            if (op.c && has_erase_at_of(s, it, 0) && key % STABLE_STEP != 0 && (op.c == 2 || (key + (long)walks[w].size()) % 3 == 0)) {
+                                bool ok = erase_at_of(s, it, 0);
                                 Event e; e.thread = t; e.opid = op.id; e.kind = O_ERASE; e.a = key; e.c = 7; e.r = ok; e.r2 = ins; e.inv = hist_inv_of(ctx, h); e.ret = dsim::now_step(); e.done = true;
                                 ++dsim::t_bypass; ctx.hist.push_back(e); if (ok) removed_inst.push_back(ins); --dsim::t_bypass; if (ok) ++nerased;
                             }
@@ -181,5 +190,7 @@ typedef cc::MichaelHashSet<DHP, IL_DHP, ms_traits> MS_DHP; typedef ItA<DHP, MS_D
 typedef cc::SplitListSet<HP, Item, sl_traits> SL_HP; typedef ItA<HP, SL_HP, KeyOps<SL_HP>, 1, false> I5; IT_SUBJECT(i5, "misc.iter_SplitListSet_Iterable_HP", I5, gen, "cds/container/split_list_set.h cds/intrusive/split_list.h over IterableList")
 typedef cc::SplitListSet<DHP, Item, sl_traits> SL_DHP; typedef ItA<DHP, SL_DHP, KeyOps<SL_DHP>, 1, false> I6; IT_SUBJECT(i6, "misc.iter_SplitListSet_Iterable_DHP", I6, gen, "cds/container/split_list_set.h over IterableList")
 typedef cc::FeldmanHashSet<HP, FItem, fs_traits> FS_HP; typedef ItA<HP, FS_HP, HashOps<FS_HP>, 2, true> I7; IT_SUBJECT(i7, "misc.iter_FeldmanHashSet_HP", I7, gen_feld, "cds/container/impl/feldman_hashset.h cds/intrusive/impl/feldman_hashset.h (forward and reverse iterators)")
+typedef cc::FeldmanHashSet<RCU_GPB, FItem, fs_traits> FS_GPB; typedef ItA<RCU_GPB, FS_GPB, HashOps<FS_GPB>, 2, true> I9; IT_SUBJECT(i9, "misc.iter_FeldmanHashSet_RCU_gpb", I9, gen_feld, "cds/container/feldman_hashset_rcu.h cds/intrusive/feldman_hashset_rcu.h (forward and reverse iterators inside an RCU critical section)")
+typedef cc::FeldmanHashSet<RCU_SHB, FItem, fs_traits> FS_SHB; typedef ItA<RCU_SHB, FS_SHB, HashOps<FS_SHB>, 2, true> I10; IT_SUBJECT(i10, "misc.iter_FeldmanHashSet_RCU_shb", I10, gen_feld, "cds/container/feldman_hashset_rcu.h cds/intrusive/feldman_hashset_rcu.h (forward and reverse iterators inside an RCU critical section)")
 typedef cc::FeldmanHashSet<DHP, FItem, fs_traits> FS_DHP; typedef ItA<DHP, FS_DHP, HashOps<FS_DHP>, 2, true> I8; IT_SUBJECT(i8, "misc.iter_FeldmanHashSet_DHP", I8, gen_feld, "cds/container/impl/feldman_hashset.h (forward and reverse iterators)")
 } // namespace
